@@ -57,22 +57,19 @@ def parseOk (s : SysDef Rat) (str : String) : Bool :=
 /-- names the INPUT pseudo system does not register (`initINPUT` has no "Ymodule") -/
 def inputLacks : List String := ["Ymodule"]
 
-/-- FieldProps keywords whose `unit_string` is an OPEN FINDING on the real code: "Giga*Pascal"
-is no dimension of any unit system (the keyword's JSON dimension is "Ymodule"), so
-`EQUALS`/`ADD`/… on YMODULE throw.  Remove the entry when the code is fixed. -/
-def fieldPropsOpen : List String := ["YMODULE"]
+/-- FieldProps keywords whose `unit_string` does not parse: none (YMODULE's "Giga*Pascal" was fixed
+in 0d2fae2e6) -/
+def fieldPropsOpen : List String := []
 
-/-- FieldProps keywords whose `unit_string` differs from the dimension of the keyword's own JSON item
-(OPEN FINDINGS: the array form and the scalar form EQUALS/ADD/… of the same keyword convert
-differently): YMODULE (unparsable vs "Ymodule"), THELCOEF ("Pressure/AbsoluteTemperature" vs "1"),
-HEATCR/HEATCRT ("ReservoirVolume" vs "Length*Length*Length": differs in FIELD, rb vs ft³). -/
-def fieldPropsMismatchOpen : List String := ["YMODULE", "THELCOEF", "HEATCR", "HEATCRT"]
+/-- FieldProps keywords whose `unit_string` differs from the dimension of the keyword's own JSON item:
+none (YMODULE, THELCOEF, HEATCR, HEATCRT were fixed in 0d2fae2e6) -/
+def fieldPropsMismatchOpen : List String := []
 
-/-- UDA controls whose `uda_dim` differs from the dimension of the deck item (OPEN FINDINGS, only
-visible when a run is restarted with such a UDA active): the RESV limits get
-`geometric_volume_rate` (FIELD: ft³/day) while the items carry rb/day; the ALQ item has no
-dimension but `uda_dim` says `gas_surface_rate` (marked @TODO in the source). -/
-def udaOpen : List String := ["WCONINJE_RESV", "WCONPROD_RESV", "GCONINJE_RESV_MAX_RATE", "WCONPROD_LIFT"]
+/-- UDA controls whose `uda_dim` differs from the dimension of the deck item (OPEN FINDING, only
+visible when a run is restarted with such a UDA active): the ALQ item of WCONPROD has no dimension
+(factor 1) but `uda_dim(WCONPROD_LIFT)` says `gas_surface_rate` (marked @TODO in the source; the right
+dimension depends on the VFP table's ALQ type).  The RESV controls were fixed in ee5075475. -/
+def udaOpen : List String := ["WCONPROD_LIFT"]
 
 /-- the (first) dimensioned item of keyword `kw` in the keyword JSON -/
 def itemDimsOfKw (kw : String) : Option (List String) :=
